@@ -58,7 +58,7 @@ class CallMixin:
                      "sorted", "next", "iter", "print", "type", "abs", "super", "callable", "object", "setattr", "float",
                      # spec-only
                      "old", "forall", "exists", "implies", "fresh", "allocated", "at_loop", "iff", "typeis", "seq_eq",
-                     "count", "distinct_seq", "ite", "subseteq", "same_elems", "box", "nonnull", "unchanged", "Seq"}
+                     "count", "distinct_seq", "ite", "subseteq", "same_elems", "box", "nonnull", "unchanged", "Seq", "some"}
 
     def _mod_consts(self, mod):
         c = self._consts_cache.get(mod)
@@ -394,6 +394,10 @@ class CallMixin:
                 fr.locals[n] = a
             fr.locals.update(kwargs)
         env = dict(fr.locals)
+        # ghost access to the caller's variables in call-site preconditions: caller_<name>
+        for k, v in p.frame.locals.items():
+            if not k.startswith("$"):
+                env["caller_" + k] = v
         for i, r in enumerate(fn.requires):
             self.oblige(p, self.spec_bool(r, p, env), "call-pre", f"{w}:{fn.qual or fn.fqn}#{i}")
         pre_heap = (dict(p.heap), p.epoch)
